@@ -105,7 +105,7 @@ impl Scenario for CacheBankHistory {
         "cache_bank_history"
     }
     fn quick_runs(&self, _f: &str) -> u64 {
-        4000
+        12000
     }
     fn chunk(&self) -> u64 {
         64
@@ -218,7 +218,7 @@ impl Scenario for CacheBankHistory {
             for _ in 0..nw {
                 let (reg, val): (u16, u8) = match rng.below(8) {
                     0..=4 => {
-                        let mut v = if rng.chance(1, 2) { rng.below(banks as u64) as u8 } else { rng.pick(&interesting) };
+                        let mut v = if rng.chance(1, 5) { 1 } else if rng.chance(1, 2) { rng.below(banks as u64) as u8 } else { rng.pick(&interesting) };
                         // a value that maps bank 0 (trampolines, which write bank registers) into the switchable window leads to the
                         // known-finding class; keep it rare so that it does not drown the rest of the search
                         if v as usize % banks == 0 && v != 0 && !rng.chance(1, 16) {
@@ -253,8 +253,8 @@ impl Scenario for CacheBankHistory {
                 case.push("w", &[0xff41, (rng.byte() & 0x78) as i64]);
             }
         }
-        if rng.chance(1, 6) {
-            case.set("arena", rng.pick(&[0x1000i64, 0x2000, 0x3000, 0x4000, 0x10000]));
+        if rng.chance(1, 4) {
+            case.set("arena", rng.pick(&[0x1000i64, 0x1000, 0x2000, 0x2000, 0x3000, 0x4000, 0x10000]));
         }
         case.set("ime", rng.below(2) as i64);
         // history
